@@ -95,7 +95,7 @@ class Memory(Backend):
         for key in keys:
             val = await self._get(key, default=default)
             if isinstance(val, Bitarray):
-                continue
+                val = None
             values.append(val)
         return tuple(values)
 
